@@ -1,6 +1,14 @@
+import SpecterModel.C01.Drv
 import SpecterModel.C11.Drv
+import SpecterModel.C12.Drv
+import SpecterModel.C28.Drv
+import SpecterModel.C34.Drv
 
 def main (args : List String) : IO UInt32 := do
   match args with
+  | ["C01"] => do Specter.C01.main; return 0
   | ["C11"] => do Specter.C11.main; return 0
+  | ["C12"] => do Specter.C12.main; return 0
+  | ["C28"] => do Specter.C28.main; return 0
+  | ["C34"] => do Specter.C34.main; return 0
   | _ => do IO.eprintln "usage: modeld <property id>"; return 2
